@@ -92,9 +92,15 @@ fn secret(n: usize) -> Vec<u8> {
     (0..n).map(|i| (0x41 + (i * 5) % 57) as u8).collect()
 }
 
+/// a second secret of the same length with different octets (anything keyed by the length or a
+/// prefix of the secret alone would confuse the two)
+fn secret_b(n: usize) -> Vec<u8> {
+    (0..n).map(|i| if i + 1 == n { 0x7a } else { (0x41 + (i * 5) % 57) as u8 }).collect()
+}
+
 fn ap_of(k: u32) -> [u8; 16] {
     match k {
-        0 => ramp(16).try_into().unwrap(),
+        0 | 3 => ramp(16).try_into().unwrap(),
         1 => [0u8; 16],
         _ => [0xffu8; 16],
     }
@@ -116,7 +122,8 @@ fn hide_json(h: &HideCase) -> Value {
 fn check_hide(ctx: &mut Ctx, h: &HideCase) {
     let c12 = ctx.prop == "C12";
     let Some(c) = bridge::avp_to_crate(&h.avp) else { return };
-    let sec = secret(h.secret_len);
+    // ap >= 3 selects the second secret of that length (with the ramp alignment padding)
+    let sec = if h.ap >= 3 { secret_b(h.secret_len) } else { secret(h.secret_len) };
     let rv = RandomVector { value: RVS[h.rv] };
     let lp: Vec<u8> = (0..h.lp_len).map(|i| (0x90 + i % 100) as u8).collect();
     let ap = ap_of(h.ap);
@@ -307,7 +314,7 @@ fn run_hide(ctx: &mut Ctx) {
             }
             for (ri, _) in RVS.iter().enumerate() {
                 for &lp in &lps {
-                    for ap in 0..3u32 {
+                    for ap in 0..4u32 {
                         let deviations = (ri != 0) as u32 + (ap != 0) as u32 + (lp != 0) as u32;
                         if !full && deviations > 1 {
                             continue;
